@@ -32,7 +32,7 @@ def run(ctx):
             for a, b in pairs:
                 jobs.append(('%s_w%d_%d_%d' % (name, w, a, b), src, [str(a), str(b)], w, 100, False, 200000))
     suites.conformance(ctx, conf)
-    suites.differential(ctx, jobs, None, label='operator-grid')
+    suites.differential(ctx, jobs, None, label='operator-grid', must_compile=True)
     ctx.samples.append(dict(program=progs[3][1][:700], args=['-32768', '-1']))
 
 
